@@ -323,3 +323,6 @@ package decoration
 
 //@ -- the empty decoration is the zero value (nobody assigns the exported variable: C16 store scan)
 //@ globalinv !EmptyDecoration.isBoxless && EmptyDecoration.Horizontal == "" && EmptyDecoration.Vertical == "" && EmptyDecoration.CrossPiece == "" && EmptyDecoration.TopDown == "" && EmptyDecoration.VBorder == "" && EmptyDecoration.HOuter == "" && EmptyDecoration.HRule == "" && EmptyDecoration.VHeader == "" && EmptyDecoration.VBodyBorder == "" && EmptyDecoration.VBodyInner == "" && EmptyDecoration.TopLeft == "" && EmptyDecoration.TopRight == "" && EmptyDecoration.BottomLeft == "" && EmptyDecoration.BottomRight == "" && EmptyDecoration.LeftBodyRule == "" && EmptyDecoration.RightBodyRule == "" && EmptyDecoration.HTopDown == "" && EmptyDecoration.BTopDown == "" && EmptyDecoration.BBottomUp == "" && EmptyDecoration.HBCross == "" && EmptyDecoration.HBLeft == "" && EmptyDecoration.HBRight == "" @C17
+
+//@ global EmptyDecoration immutable -- the zero Decoration; exported, but nothing in the repository assigns it
+//@ global registry guarded -- the one shared mutable structure: mutex + map, see the guard directive above
